@@ -9,7 +9,7 @@ import time
 import vlib
 
 PROP = "C18"
-WL = ["catalogue", "dns", "tags", "reasm", "addr", "radiotap", "wifi", "build", "pcap"]
+WL = ["catalogue", "dns", "tags", "reasm", "addr", "radiotap", "wifi", "build", "pcap", "handshakes"]
 LIBS = ("-lpcap", "-lcrypto", "-lpthread", "-ldl")
 FLAGS = ("-rdynamic",)
 
@@ -106,7 +106,7 @@ def run(tier):
         "rule": "scenario = assignment of one of %d workloads (thread-private parse/touch/clone/serialise of the 52-entry catalogue, DNS "
                 "encode/decode, protocol-table lookups incl. unknown and user-registered ids, IPv4 reassembly + TCP stream following, "
                 "address text/ranges, RadioTap setters + FCS, WEP/CCMP/TKIP decryption with per-thread keys, API building/copying/moving, "
-                "a capture file per thread written with PacketWriter and read back with FileSniffer) "
+                "a capture file per thread written with PacketWriter and read back with FileSniffer, dozens of four-way handshakes per thread) "
                 "to each of k threads: all ordered pairs (k=2), seeded assignments for k in %s; every scenario with distinct and with "
                 "identical per-thread data, repeated with randomised yields; each workload first run alone, then concurrently under "
                 "ThreadSanitizer" % (len(WL), ks),
